@@ -39,13 +39,17 @@ type script struct {
 	mid     int64
 	t0      int64
 	clock   [][2]int64 // (reading, count)
-	callers int64      // > 1: that many goroutines share the generator (conc.go)
+	callers int64      // > 1: that many goroutines share the generator (conc.go); -1: through the package API
+	jseed   int64      // != 0: every reading gets a nanosecond offset inside its time unit (nano)
 }
 
 func (s script) sx() Sx {
 	l := make([]Sx, len(s.clock))
 	for i, e := range s.clock {
 		l[i] = Ints(e[0], e[1])
+	}
+	if s.jseed != 0 {
+		return List(Int(s.mid), Int(s.t0), ListOf(l), Int(s.callers), Int(s.jseed))
 	}
 	if s.callers > 1 || s.callers < 0 {
 		return List(Int(s.mid), Int(s.t0), ListOf(l), Int(s.callers))
@@ -60,6 +64,9 @@ func scriptOf(in Sx) script {
 	}
 	if in.Len() > 3 {
 		s.callers = in.At(3).Int64()
+	}
+	if in.Len() > 4 {
+		s.jseed = in.At(4).Int64()
 	}
 	return s
 }
@@ -91,6 +98,38 @@ var autoID = int64(uuid.VerifPrivateIP4())
 
 func nanos(t int64) int64 { return t*uuid.TimeUnit + uuid.CustomEpoch }
 
+// nano is the wall-clock value handed to the code for the i-th reading (i = -1: the reading of
+// NewSnowflake) whose time unit is t.  With jseed = 0 it is the exact start of the unit.
+// Otherwise a nanosecond offset inside the unit is added — 0, 1, TimeUnit-2, TimeUnit-1 (the unit
+// boundaries +- 1 ns) or anything in between, independently per reading, so consecutive
+// readings of one unit wobble forwards and backwards by up to 10 ms.  currentTimeUnit divides a
+// signed difference with truncation, so a unit t < 0 is reached from below (offset <= 0) and
+// unit 0 from both sides: instants up to TimeUnit-1 ns BEFORE the epoch also read as unit 0.
+// The model works on time units: the offsets must not change any answer.
+func (s script) nano(i int, t int64) int64 {
+	if s.jseed == 0 {
+		return nanos(t)
+	}
+	h := NewRng(uint64(s.jseed) ^ uint64(i+7)*0x9E3779B97F4A7C15).Next()
+	var off int64
+	switch h % 8 {
+	case 0:
+		off = 0
+	case 1:
+		off = uuid.TimeUnit - 1
+	case 2:
+		off = 1
+	case 3:
+		off = uuid.TimeUnit - 2
+	default:
+		off = int64((h >> 8) % uint64(uuid.TimeUnit))
+	}
+	if t < 0 || t == 0 && (h>>4)&1 == 1 {
+		off = -off
+	}
+	return nanos(t) + off
+}
+
 // runGen drives one generator through its script with the real code.
 func runGen(s script) (auto int64, outs []outcome) {
 	if s.callers > 1 {
@@ -102,7 +141,7 @@ func runGen(s script) (auto int64, outs []outcome) {
 	auto = autoID
 	rd := s.readings()
 	pos := 0
-	uuid.VerifClock = func() int64 { return nanos(s.t0) }
+	uuid.VerifClock = func() int64 { return s.nano(-1, s.t0) }
 	var sf *uuid.Snowflake
 	if s.callers < 0 {
 		// through the package-level API: Init(workerId, store) creates the global generator,
@@ -119,7 +158,7 @@ func runGen(s script) (auto int64, outs []outcome) {
 		}
 		t := rd[pos]
 		pos++
-		return nanos(t)
+		return s.nano(pos-1, t)
 	}
 	for pos < len(rd) {
 		before := pos
@@ -469,6 +508,12 @@ func (g *tgen) trajectory(style int) (t0 int64, clk [][2]int64) {
 var styleName = []string{"forward", "rollback3", "rollbacks", "stall", "edge", "outofrange"}
 
 func (g *tgen) emit(kind string, ss []script) {
+	for i := range ss {
+		if ss[i].jseed == 0 && g.rng.Chance(3, 4) {
+			ss[i].jseed = int64(g.rng.Next()>>2) | 1
+			g.out.Count("jittered-scripts")
+		}
+	}
 	in := inputOf(ss)
 	res, obs := runScripts(ss)
 	calls := 0
@@ -514,13 +559,13 @@ func gen(a Args, out *Out) {
 		}
 		for _, m := range mids {
 			out.Count(fmt.Sprintf("machine:%s", midClass(m)))
-			g.emit(styleName[style], []script{{m, t0, clk, 0}})
+			g.emit(styleName[style], []script{{m, t0, clk, 0, 0}})
 		}
 	}
 	// the exact range edge: the sequence runs out during the last supported time unit
 	for _, m := range []int64{1, 1<<14 - 1, 65535} {
-		g.emit("edge", []script{{m, maxTU - 1, [][2]int64{{maxTU, 1025}, {maxTU + 1, 1}}, 0}})
-		g.emit("edge", []script{{m, maxTU, [][2]int64{{maxTU, 1024}, {maxTU + 1, 2}}, 0}})
+		g.emit("edge", []script{{m, maxTU - 1, [][2]int64{{maxTU, 1025}, {maxTU + 1, 1}}, 0, 0}})
+		g.emit("edge", []script{{m, maxTU, [][2]int64{{maxTU, 1024}, {maxTU + 1, 2}}, 0, 0}})
 	}
 	// generators created while the clock is already at / beyond the end of the range, then
 	// called in that same unit (NewSnowflake seeds lastTimeUnit from the clock unchecked)
@@ -532,7 +577,7 @@ func gen(a Args, out *Out) {
 				clk = append(clk, [2]int64{t0, 1}, [2]int64{maxTU - 1, 2})
 			}
 			mids := machineIDs(r)
-			g.emit("born-late", []script{{mids[1+r.Intn(len(mids)-1)], t0, clk, 0}})
+			g.emit("born-late", []script{{mids[1+r.Intn(len(mids)-1)], t0, clk, 0, 0}})
 		}
 	}
 	// through uuid.Init / uuid.NextUUID
@@ -543,7 +588,7 @@ func gen(a Args, out *Out) {
 	for k := 0; k < napi; k++ {
 		t0, clk := g.trajectory(k % 3)
 		mids := machineIDs(r)
-		g.emit("api", []script{{mids[1+r.Intn(len(mids)-1)], t0, clk, -1}})
+		g.emit("api", []script{{mids[1+r.Intn(len(mids)-1)], t0, clk, -1, 0}})
 	}
 	// concurrent callers of one generator, linearised by the clock readings they consumed
 	nconc := 40
@@ -561,7 +606,7 @@ func gen(a Args, out *Out) {
 		}
 		mids := machineIDs(r)
 		out.CountN("concurrent:callers", 1)
-		g.emit("concurrent", []script{{mids[1+r.Intn(len(mids)-1)], t0, clk, int64(r.Range(2, 8))}})
+		g.emit("concurrent", []script{{mids[1+r.Intn(len(mids)-1)], t0, clk, int64(r.Range(2, 8)), 0}})
 	}
 	// pairs of generators: machine ids that differ only above bit 14 on clocks shifted by
 	// one unit, and unrelated machine ids on the same clock
@@ -580,13 +625,13 @@ func gen(a Args, out *Out) {
 			for _, e := range clk {
 				clk2 = append(clk2, [2]int64{e[0] + 1, e[1]})
 			}
-			g.emit("pair-high-bits", []script{{m1, t0, clk, 0}, {m2, t0 + 1, clk2, 0}})
+			g.emit("pair-high-bits", []script{{m1, t0, clk, 0, 0}, {m2, t0 + 1, clk2, 0, 0}})
 		case 1:
 			m2 = m1 ^ (int64(r.Range(1, 3)) << 14)
-			g.emit("pair-high-bits", []script{{m1, t0, clk, 0}, {m2, t0, clk, 0}})
+			g.emit("pair-high-bits", []script{{m1, t0, clk, 0, 0}, {m2, t0, clk, 0, 0}})
 		default:
 			m2 = int64(r.Range(1, 65535))
-			g.emit("pair-random", []script{{m1, t0, clk, 0}, {m2, t0, clk, 0}})
+			g.emit("pair-random", []script{{m1, t0, clk, 0, 0}, {m2, t0, clk, 0, 0}})
 		}
 	}
 	// Go-side sweep over every machine id: a short trajectory each (quick), 8 trajectories
@@ -603,7 +648,7 @@ func gen(a Args, out *Out) {
 			clk = [][2]int64{{t0 + 2, 2}, {t0 + 3, 1}, {t0 + 4, 3}}
 		}
 		for m := int64(0); m < 65536; m++ {
-			ss := []script{{m, t0, clk, 0}}
+			ss := []script{{m, t0, clk, 0, (m*7919 + int64(j)) | 1}}
 			res, obs := runScripts(ss)
 			out.GoChecked++
 			if what, ok := goCheck(ss, res); !ok {
@@ -618,7 +663,7 @@ func gen(a Args, out *Out) {
 				for _, e := range clk {
 					clk2 = append(clk2, [2]int64{e[0] + 1, e[1]})
 				}
-				ps := []script{{m, t0, clk, 0}, {m - 1<<14, t0 + 1, clk2, 0}}
+				ps := []script{{m, t0, clk, 0, 0}, {m - 1<<14, t0 + 1, clk2, 0, 0}}
 				pres, pobs := runScripts(ps)
 				out.GoChecked++
 				if what, ok := goCheck(ps, pres); !ok {
@@ -636,7 +681,7 @@ func gen(a Args, out *Out) {
 			if clk[2][0] < 0 {
 				clk[2][0] = 0
 			}
-			g.emit("all-machines", []script{{m, t0, clk, 0}})
+			g.emit("all-machines", []script{{m, t0, clk, 0, 0}})
 		}
 	}
 	if a.Thorough() {
@@ -644,7 +689,7 @@ func gen(a Args, out *Out) {
 		for j := 0; j < 4; j++ {
 			t0, clk := g.trajectory(3 + j%2)
 			for m := int64(r.Intn(64)); m < 65536; m += 64 {
-				ss := []script{{m, t0, clk, 0}}
+				ss := []script{{m, t0, clk, 0, 0}}
 				res, obs := runScripts(ss)
 				out.GoChecked++
 				if what, ok := goCheck(ss, res); !ok {
@@ -680,7 +725,7 @@ func concurrent() {
 		for i := range clk {
 			clk[i][1] += int64(rr.Range(0, 60))
 		}
-		ss := []script{{int64(rr.Range(1, 65535)), t0, clk, int64(rr.Range(2, 8))}}
+		ss := []script{{int64(rr.Range(1, 65535)), t0, clk, int64(rr.Range(2, 8)), int64(rr.Next()>>2) | 1}}
 		res, _ := runScripts(ss)
 		ncalls += len(res[0].outs)
 		if what, ok := goCheck(ss, res); !ok || concViolation != "" {
